@@ -9,6 +9,7 @@ import H4.Driver.VGroup
 import H4.Driver.Annot
 import H4.Driver.Il
 import H4.Driver.Vs
+import H4.Driver.GR
 import H4.Driver.Attr
 import H4.Driver.MCache
 import H4.Driver.Bits
@@ -25,6 +26,7 @@ structure World where
   vg : H4.VGroup.File := {}
   an : H4.Annot.AnState := {}
   vs : VsState := {}
+  gr : GrState := {}
   attr : AttrState := {}
   mcache : H4.MCache.State := mcacheInit
 
@@ -44,6 +46,7 @@ def stepWorld (w : World) (engine : String) (args : List String) : World × Stri
   | "skphuff" => (w, stepSkpHuff args)
   | "nbit" => (w, stepNBit args)
   | "attr" => let (s, out) := stepAttr w.attr args; ({ w with attr := s }, out)
+  | "gr" => let (s, out) := stepGr w.gr args; ({ w with gr := s }, out)
   | "hp" => let (h, r) := stepHp w.hp args; ({ w with hp := h }, r)
   | _ => (w, "bad-engine")
 
